@@ -1682,6 +1682,32 @@ class Interp:
                 return self._jump_single(st, fr, fb)
             succs = []
             for val, tgt in ((True, tb), (False, fb)):
+                cond = d.b if val else bnot(d.b)
+                # a disjunctive condition (`!(lo <= x && x <= hi)`, `a || b`) is followed disjunct by disjunct, each path
+                # carrying its own order fact (first disjunct; second with the first excluded; ...)
+                disj = []
+
+                def flat(b_):
+                    if b_.k[0] == 'or':
+                        flat(b_.k[1])
+                        flat(b_.k[2])
+                    elif b_.k[0] == 'not' and b_.k[1].k[0] == 'and':
+                        flat(bnot(b_.k[1].k[1]))
+                        flat(bnot(b_.k[1].k[2]))
+                    else:
+                        disj.append(b_)
+                flat(cond)
+                if len(disj) > 1 and len(disj) <= 4:
+                    for i_, dj in enumerate(disj):
+                        s2 = st.fork()
+                        ok_ = s2.ctx.assume(dj, True)
+                        for prev in disj[:i_]:
+                            ok_ = ok_ and s2.ctx.assume(prev, False)
+                        if not ok_:
+                            continue
+                        self.jump(s2, s2.frames[-1], tgt)
+                        succs.append(s2)
+                    continue
                 s2 = st.fork()
                 if not s2.ctx.assume(d.b, val):
                     continue
